@@ -43,9 +43,14 @@
 
    [rf] is "the decimal rendering of a float64" (Go: AppendFloat(f,'f',-1,64));
    it is a parameter here and the theorems tie it to Floats.render_float by an
-   explicit hypothesis on the exact-decimal domain. *)
+   explicit hypothesis on the exact-decimal domain.
+
+   This file shares with the model only the data types of Model/AssignVal.v and
+   the validated slices of Go in Base (wrap = Go's integer conversion,
+   to_f32/to_f64 = Go's float conversions, parse_float = the correctly rounded
+   float64 a decimal text denotes); it does not import Model/Assign.v. *)
 From Coq Require Import ZArith Bool String Ascii List Floats.SpecFloat.
-From Verif Require Import Util Ints Strconv Floats Assign.
+From Verif Require Import Util Ints Strconv Floats AssignVal.
 Import ListNotations.
 Local Open Scope Z_scope.
 
@@ -345,10 +350,6 @@ Definition rendered (rf : spec_float -> string) (src : source) : Prop :=
   | SVal (VF64 f) | SPtr (VF64 f) => render_float f = Some (rf f)
   | _ => True
   end.
-
-(* (ok, destination) of an outcome *)
-Definition result (o : outcome) : option (bool * dest) :=
-  match o with Done ok d _ _ => Some (ok, d) | _ => None end.
 
 (* the text a destination holds (empty for the others) *)
 Definition stored_text (d : dest) : string :=
